@@ -7,6 +7,24 @@ TRUSTED_COMMON = [
 ]
 
 PROPS = {
+    "C12": {
+        "title": "Fast-sync acceptance",
+        "design_ref": "DESIGN.md §3 C12",
+        "technique": "Lean 4 proof of the acceptance decision (model assembled from check order, threshold and operator regenerated from the Go AST) + differential correspondence on tampered real responses + independent-recomputation oracle + node-level restore check",
+        "level_text": "Proof (Lean 4): the model of core.checkFastForward accepts iff the response is structurally sound, both hashes match, strictly more than TrustCount DISTINCT members of the frame's peer set have a verifying signature and one of them is a validator the node already knows (ff_accept_iff); the same signer under any number of re-encoded keys counts once (valid_signers_distinct), every counted signer has a verifying entry; any tampering that breaks a hashed relation is refused (ff_tamper_refused); nothing precedes the checks in core.fastForward and the application is restored only after them in Node.fastForward (ff_refused_is_noop, order regenerated from the source). The model is tied to the code by applying 29 single-field tamperings of real responses to fresh cores and comparing accept/refuse; refusals are checked to leave a digest of the node unchanged; the real Node.fastForward is run against a hostile serving peer.",
+        "level_note": "Trusted: Lean kernel; extractor (check order, CheckBlock operator, TrustCount formula); hash equalities and signature validity are input bits from the real code (SHA-256 injectivity, ECDSA unforgeability).",
+        "trusted_base": ["hash(frame)/hash(peer set) equality ⇔ content equality (SHA-256), signatures cover the block body (ECDSA)", "fast-forward model Babble.FF tied to core.fastForward by correspondence on tampered responses"],
+        "assumptions": ["frame.Peers is duplicate free (it hashes to the block's peer-set hash, which was produced from a set built by WithNewPeer/WithRemovedPeer: C19)"],
+    },
+    "C14": {
+        "title": "Fast-sync trust",
+        "design_ref": "DESIGN.md §3 C14",
+        "technique": "Lean 4 proof on the acceptance model (trusted-signer requirement regenerated from the Go AST) + forged-response harness",
+        "level_text": "Proof (Lean 4): an accepted response has at least one verifying signer from a peer-set the node knows independently of the response (ff_needs_trusted_signer); a response signed only by strangers is refused however consistent internally (forged_set_refused); the trust check is present in the acceptance decision and consults the node's own peers, genesis peers and latest validator set (trust_check_present, regenerated from checkTrustedSigner). Tied to the code by forged, internally consistent responses (fresh keys, self-made set of 1-4 members, block signed by all of them) against fresh cores: always refused, digest unchanged; an honest response endorsed by known validators is still accepted.",
+        "level_note": "Trusted: Lean kernel; extractor (presence and sources of the trusted-signer check); signature validity as input bits.",
+        "trusted_base": ["the count of trusted valid signers is computed by the harness from the real peer sets of the victim core and the real signature verification"],
+        "assumptions": ["the node's configured peers / genesis peers are themselves trustworthy (they are its root of trust)"],
+    },
     "C08": {
         "title": "No network input can crash a node or alter its committed history",
         "design_ref": "DESIGN.md §3 C08",
